@@ -8,6 +8,7 @@ import (
 	"encoding/json"
 	"errors"
 	"fmt"
+	"github.com/godaddy/asherah/go/appencryption/pkg/persistence"
 	"math/rand"
 	mrand "math/rand"
 	"strings"
@@ -72,17 +73,17 @@ type Params struct {
 
 type hist struct {
 	ledArmBase int // ledger call index at the last armFault/disarmFault
-	r     *ev.Run
-	p     Params
-	rng   *rand.Rand
-	w     *world.World
-	facts []*fact
-	recs  []*rec
+	r          *ev.Run
+	p          Params
+	rng        *rand.Rand
+	w          *world.World
+	facts      []*fact
+	recs       []*rec
 	// newIKReported: creation stamps of intermediate keys already reported as created under a revoked system key
 	newIKReported map[int64]bool
-	steps []string
-	seed  int64
-	nfact int
+	steps         []string
+	seed          int64
+	nfact         int
 
 	expire, revoke, precision time.Duration
 
@@ -360,7 +361,11 @@ func (h *hist) encrypt(s *sess) {
 	viaStore := h.rng.Intn(4) == 0
 	if viaStore {
 		var k interface{}
-		k, err = s.s.Store(context.Background(), payload, mapStore{h})
+		var st appencryption.Storer = mapStore{h}
+		if len(h.store)%2 == 1 {
+			st = persistence.StorerFunc(mapStore{h}.Store) // the SDK's adapter for plain functions
+		}
+		k, err = s.s.Store(context.Background(), payload, st)
 		if err == nil {
 			drr = world.CopyDRR(h.store[k.(int)])
 		}
@@ -622,7 +627,11 @@ func (h *hist) decrypt(s *sess, rc *rec, how string) {
 	if viaLoad {
 		k := len(h.store)
 		h.store[k] = arg
-		out, err = s.s.Load(context.Background(), k, mapStore{h})
+		var ld appencryption.Loader = mapStore{h}
+		if k%2 == 1 {
+			ld = persistence.LoaderFunc(mapStore{h}.Load)
+		}
+		out, err = s.s.Load(context.Background(), k, ld)
 	} else {
 		out, err = s.s.Decrypt(context.Background(), *arg)
 	}
